@@ -3,7 +3,9 @@ package main
 // forwarderr component: responses relayed by the forwarder, failures mapped to gateway errors, listener calls paired.
 //
 // kind 0 (unit): utils.DefaultHandler.ServeHTTP(recorder, req, err) with an error constructed from a catalogue; the op carries
-//   the ground truth about the error by construction: [0 id isNetError timeout wrapsEOF wrapsCanceled] -> obs [status]
+//   the ground truth about the error by construction: [0 id isNetError timeout wrapsEOF wrapsCanceled ctx] -> obs [status];
+//   ctx = state of the request's own context when the handler runs (0 live, 1 deadline expired, 2 cancelled): the status is a
+//   function of the error alone
 // kind 1 (exchange): raw TCP client -> real http.Server -> forward.NewStateListener(forward.New(true)) -> raw TCP backend that
 //   behaves as the op says: [1 mode status bodyLen framing pieces]
 //     mode 0 normal response (status, body of bodyLen bytes, framing 0 = Content-Length, 1 = chunked; written in `pieces`
@@ -12,7 +14,12 @@ package main
 //            6 response head, part of the body, then close (Content-Length larger than sent / unterminated chunk),
 //            7 close in the middle of the response head (observed only: net/http reports io.ErrUnexpectedEOF, which the handler
 //              maps to 500; the statement's list of failure modes does not cover it and the monitor accepts 500 or 502),
-//            8 response head, part of the body, then RST
+//            8 response head, part of the body, then RST,
+//            9 the inbound request's own context deadline (set by a middleware in front of the forwarder) expires while the
+//              backend stalls and the client stays connected: a backend response timeout, 504
+// kind 2 (concurrent relays): [2 n len] after one completed request, n responses of len bytes (each a different byte) are
+//   relayed through one forwarder at the same time, the first of them to a client that does not take its bytes until all the
+//   others are done -> obs [number of bodies that arrive intact]
 //   obs [hasErr isNet timeout eof canceled  proxyStatus clientStatus bodyIntact abortPanic  ncb cb*]
 //     (hasErr.. = the error Transport.RoundTrip returned, seen through the handler's own tests; proxyStatus = status written by
 //      the proxy's handler, clientStatus = status the client read (0: no response), bodyIntact = client body == backend body,
@@ -34,6 +41,7 @@ import (
 	"net/http/httptest"
 	"net/url"
 	"os"
+	"strconv"
 	"strings"
 	"sync"
 	"syscall"
@@ -267,6 +275,11 @@ func (e *env) proxy(w http.ResponseWriter, r *http.Request) {
 	if x.mode == 4 {
 		l = e.listenerT
 	}
+	if x.mode == 9 {
+		ctx, cancel := context.WithTimeout(r.Context(), headerTimeout)
+		defer cancel()
+		r = r.WithContext(ctx)
+	}
 	l.ServeHTTP(&statusRecorder{ResponseWriter: w, x: x}, r)
 }
 
@@ -313,7 +326,7 @@ func (e *env) serveRaw(c net.Conn) {
 		return
 	case 3: // FIN before the head
 		return
-	case 4, 5: // stall: say nothing until the proxy gives up (header timeout / client gone) and closes the connection
+	case 4, 5, 9: // stall: say nothing until the proxy gives up (header timeout / client gone) and closes the connection
 		_ = c.SetReadDeadline(time.Now().Add(10 * time.Second))
 		_, _ = c.Read(make([]byte, 1))
 		return
@@ -394,14 +407,18 @@ func (c *comp) Gen(rng *rand.Rand, idx int, tier string, targeted bool) hlib.His
 		if rng.Intn(10) < 4 {
 			id := rng.Intn(len(catalogue))
 			e := catalogue[id]
-			h.Ops = append(h.Ops, []int64{0, int64(id), hlib.B2i(e.net), hlib.B2i(e.timeout), hlib.B2i(e.eof), hlib.B2i(e.cancel)})
+			h.Ops = append(h.Ops, []int64{0, int64(id), hlib.B2i(e.net), hlib.B2i(e.timeout), hlib.B2i(e.eof), hlib.B2i(e.cancel), hlib.Pick(rng, 0, 0, 1, 2)})
 			continue
 		}
-		mode := hlib.Pick(rng, 0, 0, 0, 0, 1, 2, 3, 4, 5, 6, 6, 7, 8)
-		if targeted {
-			mode = hlib.Pick(rng, 0, 1, 2, 3, 4, 5, 6, 6, 6, 7, 8, 8)
+		if rng.Intn(12) == 0 {
+			h.Ops = append(h.Ops, []int64{2, int64(2 + rng.Intn(5)), hlib.Pick(rng, 1, 700, 4096, 40000, 100000)})
+			continue
 		}
-		if mode == 4 || mode == 5 {
+		mode := hlib.Pick(rng, 0, 0, 0, 0, 1, 2, 3, 4, 5, 6, 6, 7, 8, 9)
+		if targeted {
+			mode = hlib.Pick(rng, 0, 1, 2, 3, 4, 5, 6, 6, 6, 7, 8, 8, 9)
+		}
+		if mode == 4 || mode == 5 || mode == 9 {
 			if slow >= 1 && !targeted { // keep the quick tier quick: at most one slow exchange per history
 				mode = 6
 			}
@@ -449,7 +466,7 @@ func (c *comp) Run(h *hlib.History) ([]hlib.Mon, bool) {
 		}
 		switch op[0] {
 		case 0:
-			if len(op) != 6 || op[1] < 0 || int(op[1]) >= len(catalogue) {
+			if len(op) != 7 || op[1] < 0 || int(op[1]) >= len(catalogue) || op[6] < 0 || op[6] > 2 {
 				return nil, false
 			}
 			ce := catalogue[op[1]]
@@ -462,13 +479,24 @@ func (c *comp) Run(h *hlib.History) ([]hlib.Mon, bool) {
 				hit("harness: catalogue entry %q has flags %v %v %v %v", ce.name, n, t, eo, ca)
 			}
 			rec := httptest.NewRecorder()
-			utils.DefaultHandler.ServeHTTP(rec, httptest.NewRequest(http.MethodGet, "http://example.com/", nil), err)
+			ureq := httptest.NewRequest(http.MethodGet, "http://example.com/", nil)
+			switch op[6] {
+			case 1:
+				ctx, cancel := context.WithDeadline(ureq.Context(), time.Now().Add(-time.Second))
+				ureq = ureq.WithContext(ctx)
+				defer cancel()
+			case 2:
+				ctx, cancel := context.WithCancel(ureq.Context())
+				cancel()
+				ureq = ureq.WithContext(ctx)
+			}
+			utils.DefaultHandler.ServeHTTP(rec, ureq, err)
 			h.Obs = append(h.Obs, []int64{int64(rec.Code)})
 			if want := expectedStatus(ce.net, ce.timeout, ce.eof, ce.cancel); int64(rec.Code) != want {
-				hit("error handler: %s -> status %d, want %d", ce.name, rec.Code, want)
+				hit("error handler: %s (request context state %d) -> status %d, want %d", ce.name, op[6], rec.Code, want)
 			}
 		case 1:
-			if len(op) != 6 || op[1] < 0 || op[1] > 8 || op[2] < 200 || op[2] > 599 || op[3] < 0 || op[3] > 1<<20 || op[4] < 0 || op[4] > 1 || op[5] < 1 || op[5] > 16 {
+			if len(op) != 6 || op[1] < 0 || op[1] > 9 || op[2] < 200 || op[2] > 599 || op[3] < 0 || op[3] > 1<<20 || op[4] < 0 || op[4] > 1 || op[5] < 1 || op[5] > 16 {
 				return nil, false
 			}
 			x := &exchange{mode: int(op[1]), status: int(op[2]), bodyLen: int(op[3]), framing: int(op[4]), pieces: int(op[5]),
@@ -544,6 +572,10 @@ func (c *comp) Run(h *hlib.History) ([]hlib.Mon, bool) {
 				if clientStatus != 504 {
 					hit("backend response timeout: client got %d, want 504 (RoundTrip error: %v)", clientStatus, rtErr)
 				}
+			case 9:
+				if clientStatus != 504 {
+					hit("request deadline expired while the backend stalled (client still connected): client got %d, want 504 (RoundTrip error: %v)", clientStatus, rtErr)
+				}
 			case 5:
 				if proxyStatus != 499 {
 					hit("client went away: recorded status %d, want 499 (RoundTrip error: %v)", proxyStatus, rtErr)
@@ -565,6 +597,15 @@ func (c *comp) Run(h *hlib.History) ([]hlib.Mon, bool) {
 					hit("truncated backend body: the proxy wrote status %d, backend sent %d", proxyStatus, x.status)
 				}
 			}
+		case 2:
+			if len(op) != 3 || op[1] < 2 || op[1] > 16 || op[2] < 1 || op[2] > 1<<20 {
+				return nil, false
+			}
+			intact, problem := relayTogether(int(op[1]), int(op[2]))
+			h.Obs = append(h.Obs, []int64{int64(intact)})
+			if problem != "" {
+				hit("%d responses of %d bytes relayed at the same time: %s", op[1], op[2], problem)
+			}
 		default:
 			return nil, false
 		}
@@ -573,6 +614,104 @@ func (c *comp) Run(h *hlib.History) ([]hlib.Mon, bool) {
 	e.cur = nil
 	e.mu.Unlock()
 	return mons, true
+}
+
+// slowWriter is a client that takes no body bytes until its gate opens (a full socket buffer): the first Write blocks
+// and only afterwards looks at the bytes it was handed.
+type slowWriter struct {
+	hdr     http.Header
+	code    int
+	buf     bytes.Buffer
+	gate    chan struct{}
+	reached chan struct{}
+	once    sync.Once
+}
+
+func (s *slowWriter) Header() http.Header { return s.hdr }
+func (s *slowWriter) WriteHeader(c int) {
+	if s.code == 0 {
+		s.code = c
+	}
+}
+func (s *slowWriter) Write(p []byte) (int, error) {
+	s.once.Do(func() {
+		close(s.reached)
+		<-s.gate
+	})
+	return s.buf.Write(p)
+}
+
+func relayTogether(n, size int) (intact int, problem string) {
+	want := func(id int) []byte { return bytes.Repeat([]byte{byte('A' + id%26)}, size) }
+	backend := httptest.NewServer(http.HandlerFunc(func(w http.ResponseWriter, r *http.Request) {
+		id, _ := strconv.Atoi(r.URL.Query().Get("id"))
+		w.Header().Set("Content-Length", strconv.Itoa(size))
+		_, _ = w.Write(want(id))
+	}))
+	defer backend.Close()
+	fwd := forward.New(true)
+	fwd.ErrorLog = log.New(io.Discard, "", 0)
+	bu, _ := url.Parse(backend.URL)
+	serve := func(id int, w http.ResponseWriter) {
+		req := httptest.NewRequest(http.MethodGet, fmt.Sprintf("http://example.com/?id=%d", id), nil)
+		u := *bu
+		u.RawQuery = req.URL.RawQuery
+		req.URL = &u
+		fwd.ServeHTTP(w, req)
+	}
+	serve(25, httptest.NewRecorder()) // one completed request first
+	slow := &slowWriter{hdr: http.Header{}, gate: make(chan struct{}), reached: make(chan struct{})}
+	done0 := make(chan struct{})
+	go func() {
+		defer close(done0)
+		defer func() { _ = recover() }()
+		serve(0, slow)
+	}()
+	select {
+	case <-slow.reached:
+	case <-done0:
+	case <-time.After(5 * time.Second):
+		close(slow.gate)
+		return 0, "the first relay never started writing"
+	}
+	recs := make([]*httptest.ResponseRecorder, n)
+	var wg sync.WaitGroup
+	for i := 1; i < n; i++ {
+		recs[i] = httptest.NewRecorder()
+		wg.Add(1)
+		go func(i int) {
+			defer wg.Done()
+			defer func() { _ = recover() }()
+			serve(i, recs[i])
+		}(i)
+	}
+	wg.Wait()
+	close(slow.gate)
+	select {
+	case <-done0:
+	case <-time.After(5 * time.Second):
+		return 0, "the first relay did not finish"
+	}
+	if bytes.Equal(slow.buf.Bytes(), want(0)) {
+		intact++
+	} else {
+		problem = fmt.Sprintf("the slow client received %d bytes starting %q, its backend sent %d bytes of %q", slow.buf.Len(), head(slow.buf.Bytes()), size, "A")
+	}
+	for i := 1; i < n; i++ {
+		if recs[i].Code == 200 && bytes.Equal(recs[i].Body.Bytes(), want(i)) {
+			intact++
+		} else if problem == "" {
+			problem = fmt.Sprintf("client %d received status %d and %d bytes starting %q, its backend sent %d bytes of %q", i, recs[i].Code, recs[i].Body.Len(), head(recs[i].Body.Bytes()), size, string(rune('A'+i%26)))
+		}
+	}
+	return intact, problem
+}
+
+func head(b []byte) string {
+	if len(b) > 8 {
+		b = b[:8]
+	}
+	return string(b)
 }
 
 // client sends one request over a fresh connection and reads the response.
@@ -599,14 +738,16 @@ func (e *env) client(x *exchange) (status int, body []byte, hdr http.Header, err
 	return resp.StatusCode, body, resp.Header, err
 }
 
-var modeNames = []string{"normal", "refused", "reset-before-head", "close-before-head", "header-timeout", "client-cancel", "truncated-body", "head-cut", "reset-after-head"}
+var modeNames = []string{"normal", "refused", "reset-before-head", "close-before-head", "header-timeout", "client-cancel", "truncated-body", "head-cut", "reset-after-head", "request-deadline"}
 
 func (c *comp) Describe(h *hlib.History) interface{} {
 	var ops []string
 	for i, op := range h.Ops {
 		s := ""
-		if op[0] == 0 && len(op) == 6 && int(op[1]) < len(catalogue) {
-			s = fmt.Sprintf("errorHandler(%s)", catalogue[op[1]].name)
+		if op[0] == 0 && len(op) == 7 && int(op[1]) < len(catalogue) {
+			s = fmt.Sprintf("errorHandler(%s; request context %s)", catalogue[op[1]].name, []string{"live", "deadline expired", "cancelled"}[op[6]])
+		} else if op[0] == 2 && len(op) == 3 {
+			s = fmt.Sprintf("relayTogether(n=%d, %d bytes each)", op[1], op[2])
 		} else if len(op) == 6 && op[1] >= 0 && int(op[1]) < len(modeNames) {
 			s = fmt.Sprintf("exchange(%s status=%d body=%d framing=%d pieces=%d)", modeNames[op[1]], op[2], op[3], op[4], op[5])
 		}
@@ -624,6 +765,8 @@ func (c *comp) Nontrivial(h *hlib.History) string {
 	for _, op := range h.Ops {
 		if op[0] == 0 {
 			unit++
+		} else if op[0] == 2 {
+			hlib.Count("concurrent_relays", 1)
 		} else if len(op) > 1 {
 			modes[op[1]] = true
 			hlib.Count("exchange_"+modeNames[op[1]], 1)
